@@ -60,6 +60,9 @@ def _strategy(draw):
     if draw(st.booleans()):
         defines["gb_1"] = [_num(draw), _num(draw)]
         defines["ga_2"] = [_num(draw), _num(draw)]
+        # single-valued macros, usable several times in one line (POSRES_FC POSRES_FC POSRES_FC)
+        defines["FC_A"] = [_num(draw)]
+        defines["FC_B"] = [_num(draw)]
     tables = {sec: [] for sec in NAT}
     mols = []
     for mi in range(draw(st.sampled_from([1, 1, 2, 3]))):
@@ -79,7 +82,16 @@ def _strategy(draw):
                 if sec == "constraints" and draw(st.booleans()):
                     continue
                 listed = win if draw(st.booleans()) else win[::-1]
-                mode = draw(st.sampled_from(["typed", "typed", "typed", "explicit", "macro"]))
+                mode = draw(st.sampled_from(["typed", "typed", "typed", "explicit", "macro", "macro_mix"]))
+                if mode == "macro_mix":
+                    if defines:
+                        nval = 1 if sec == "constraints" else 2
+                        toks = [draw(st.sampled_from(["FC_A", "FC_A", "FC_B", _num(draw)])) for _ in range(nval)]
+                        inter.append({"sec": sec, "atoms": listed, "mode": "macro",
+                                      "params": [{"bonds": "1", "constraints": "1", "angles": "1", "dihedrals": "1"}[sec]]
+                                      + toks + (["2"] if sec == "dihedrals" else [])})
+                        continue
+                    mode = "explicit"
                 func = {"bonds": "1", "constraints": "1", "angles": "1", "dihedrals": draw(st.sampled_from(["9", "1"]))}[sec]
                 if mode == "explicit" or (mode == "macro" and not defines) or (mode == "macro" and sec not in ("bonds", "angles")):
                     params = [func] + [_num(draw) for _ in range(2)] + (["2"] if sec == "dihedrals" else [])
@@ -277,7 +289,7 @@ def check(spec, ctx):
             if it["mode"] == "explicit":
                 want_sets = [[it["params"]]]
             elif it["mode"] == "macro":
-                want_sets = [[[it["params"][0]] + spec["defines"][it["params"][1]]]]
+                want_sets = [[[it["params"][0]] + [v for tok in it["params"][1:] for v in spec["defines"].get(tok, [tok])]]]
             else:
                 want_sets = resolved[(mi, n)]
             same_key = [j for j in mol["inter"] if (j["sec"], tuple(j["atoms"])) == key]
